@@ -14,16 +14,17 @@ import (
 )
 
 type report struct {
-	eng      *Engine
-	bounded  []boundedResult
-	results  []*funcResult
-	tier     string
-	want     map[string]bool
-	verbose  bool
-	lockMode string
-	noReplay bool
-	start    time.Time
-	genSecs  float64
+	eng        *Engine
+	bounded    []boundedResult
+	results    []*funcResult
+	tier       string
+	want       map[string]bool
+	verbose    bool
+	lockMode   string
+	noReplay   bool
+	noEvidence bool
+	start      time.Time
+	genSecs    float64
 }
 
 type finding struct {
@@ -346,9 +347,11 @@ func (r *report) finish() int {
 			// nothing proved: make that explicit instead of a vacuous proof claim
 			ev["level"] = "other"
 		}
-		os.MkdirAll(filepath.Join(eng.verif, "evidence"), 0o755)
-		data, _ := json.MarshalIndent(ev, "", " ")
-		os.WriteFile(filepath.Join(eng.verif, "evidence", p+".json"), data, 0o644)
+		if !r.noEvidence {
+			os.MkdirAll(filepath.Join(eng.verif, "evidence"), 0o755)
+			data, _ := json.MarshalIndent(ev, "", " ")
+			os.WriteFile(filepath.Join(eng.verif, "evidence", p+".json"), data, 0o644)
+		}
 		fmt.Printf("property %s: %d/%d claimed obligations discharged, %d known findings, %d violations, %d unclaimed (%d of them discharged) [%.1fs]\n",
 			p, nDischarged, nClaimed, len(known), len(violations), nUnclaimed, nUnclaimedOK, time.Since(pstart).Seconds())
 		if r.verbose {
